@@ -71,7 +71,12 @@ func (x *Exec) call(st *State, fr *Frame, at ssa.Instruction, cc *ssa.CallCommon
 		st.meta = map[string]Val{}
 	}
 	// ... and what it was handed (spec: lastarg("pattern", k))
-	st.meta["args:"+name] = Val{Tup: append([]Val(nil), args...)}
+	if cc.IsInvoke() {
+		// receiver first, as in the argN numbering of guards
+		st.meta["args:"+name] = Val{Tup: append([]Val{fnv}, args...)}
+	} else {
+		st.meta["args:"+name] = Val{Tup: append([]Val(nil), args...)}
+	}
 
 	// interface invoke with statically known dynamic type -> concrete method
 	if cc.IsInvoke() && fnv.Dyn != nil && fnv.Dyn.Typ != nil {
@@ -146,7 +151,7 @@ func (x *Exec) callFunction(st *State, fr *Frame, at ssa.Instruction, name strin
 		}
 	}
 	// 2. contract
-	if c, ok := x.P.Contracts[name]; ok && fn != x.Top {
+	if c, ok := x.contractOf(name); ok && fn != x.Top {
 		_, forceInline := c.Flags["inline"]
 		if !forceInline {
 			v := x.applyContract(st, fr, at, name, c, fn.Signature, fn, args)
@@ -419,7 +424,7 @@ func (x *Exec) callAbstract(st *State, fr *Frame, at ssa.Instruction, name strin
 			return false
 		}
 	}
-	if c, ok := x.P.Contracts[name]; ok {
+	if c, ok := x.contractOf(name); ok {
 		var sig *types.Signature
 		if cc != nil {
 			sig = cc.Signature()
@@ -1578,4 +1583,18 @@ func collectAfterPats(e Expr, out *[]string) {
 		collectAfterPats(e.A, out)
 		collectAfterPats(e.B, out)
 	}
+}
+
+// contractOf: the contract of a callee; an instance of a generic function ("pkg.F[T]") that has no
+// contract of its own falls back to the contract written for the generic ("pkg.F").
+func (x *Exec) contractOf(name string) (*Contract, bool) {
+	if c, ok := x.P.Contracts[name]; ok {
+		return c, true
+	}
+	if i := strings.Index(name, "["); i > 0 && strings.HasSuffix(name, "]") {
+		if c, ok := x.P.Contracts[name[:i]]; ok {
+			return c, true
+		}
+	}
+	return nil, false
 }
